@@ -540,13 +540,49 @@ static void controller_identity()
     }
 }
 
+// ---- long addresses: a parameter address of every length 2..900 is learned and then driven (int 0..127 and a float parameter)
+static void nop_cb20(const char *, rtosc::RtData &) {}
+static void long_addresses()
+{
+    if(vp::ctx().shard != 0) return;
+    for(int L = 2; L <= 900; ++L) for(int kind = 0; kind < 2; ++kind) {
+        std::string cid = "longaddr|L" + std::to_string(L) + "|k" + std::to_string(kind);
+        if(!vp::want(cid)) continue;
+        vp::current_case() = cid; vp::state(); vp::eval(); vp::nontrivial(vp::fnv(cid));
+        std::string leaf(L - 1, 'm'); for(int k = 0; k < L - 1; k += 6) leaf[k] = (char)('a' + (k / 6) % 26);
+        std::string pname = leaf + (kind ? "::f" : "::i"), path = "/" + leaf;
+        const char *meta = kind ? rProp(parameter) rLinear(-1, 1) rDoc("f") : rProp(parameter) rLinear(0, 127) rDoc("i");
+        rtosc::Ports ports({rtosc::Port{pname.c_str(), meta, nullptr, nop_cb20}});
+        Sys::Inst I; I.nrt.base_ports = &ports;
+        auto flush = [&]() {
+            for(int guard = 0; guard < 16 && (!I.n2r.empty() || !I.r2n.empty()); ++guard) {
+                while(!I.n2r.empty()) { Msg m = I.n2r.front(); I.n2r.pop_front(); rtosc::RtData d; char loc[128]; memset(loc, 0, sizeof loc); d.loc = loc; d.loc_size = sizeof loc; d.obj = &I.rt; rtosc::MidiMapperRT::ports.dispatch(m.bytes.data() + strlen("/midi-learn/"), d); vp::transition(); }
+                while(!I.r2n.empty()) { Msg m = I.r2n.front(); I.r2n.pop_front(); int id = I.use_id(m); if(id != -1000) I.nrt.useFreeID(id); vp::transition(); }
+            }
+        };
+        I.nrt.map(path.c_str(), true); flush();
+        I.rt.handleCC(7, 100); vp::transition(); flush();
+        const std::string cls = std::string(kind ? "float" : "int-0-127") + (L >= 120 ? ",address>=120" : ",address<120");
+        bool ok = true;
+        for(int v : {127, 0}) {
+            I.backend.clear(); I.rt.handleCC(7, v); vp::transition();
+            bool good = I.backend.size() == 1 && I.backend[0].ok && I.backend[0].addr == path && I.backend[0].types == (kind ? "f" : "i");
+            if(good) { if(kind) { float f; memcpy(&f, &I.backend[0].u32, 4); good = v ? (f >= 0.984f && f <= 1.0f) : (f >= -1.0f && f <= -0.984f); } else good = (int32_t)I.backend[0].u32 == v; }
+            if(!good) { vp::violation("msg-count|learned-long-address|" + cls, cid, "address of " + std::to_string(L) + " characters learned for controller 7; value " + std::to_string(v) + " produced " + Sys::show_msgs(I.backend)); ok = false; break; }
+        }
+        vp::outcome(std::string("long-address:") + (ok ? "ok" : "BAD")); vp::trace();
+    }
+    vp::bound("long_addresses", "a parameter address of every length 2..900, int [0,127] and float [-1,1], learned through map / free-controller report / snapshot and driven with 127 and 0");
+}
+
 int main(int argc, char **argv)
 {
     vp::init(argc, argv, "C20");
     const bool T = vp::thorough();
     std::string variants = T ? "bac" : "b";      // c: four addresses and four controller ids (ports of b), smaller depth
     if(!vp::replaying() || vp::ctx().replay.compare(0, 6, "ident|") == 0) { select_variant('b'); controller_identity(); }
-    if(vp::replaying() && vp::ctx().replay.compare(0, 6, "ident|") == 0) return vp::finish();
+    if(!vp::replaying() || vp::ctx().replay.compare(0, 9, "longaddr|") == 0) long_addresses();
+    if(vp::replaying() && (vp::ctx().replay.compare(0, 6, "ident|") == 0 || vp::ctx().replay.compare(0, 9, "longaddr|") == 0)) return vp::finish();
     for(char variant : variants) {
     select_variant(variant == 'c' ? 'b' : variant);
     bfs::Engine<Sys> E;
